@@ -13,9 +13,12 @@ const realBlockLimit = 1 << 20
 func bigBlock(r *Rng, n int, shape string) []byte {
 	// Inline content that ends up in ONE paragraph of this size must be plain:
 	// the inline parser is (legitimately) quadratic in unmatched brackets and
-	// delimiter runs, which at a megabyte is hours.  List items are separate
-	// short paragraphs and code/HTML blocks are not inline-parsed, so those
-	// carry the usual fragments.
+	// delimiter runs, which at a megabyte is hours.  Code and HTML blocks are
+	// not inline-parsed, so those carry the usual fragments.  List items are
+	// plain as well: on this library an item like "# z <b>" gets a Text node
+	// that runs to the end of the ROOT block (DESIGN section 6), and 28 000 of
+	// them make Render's output - and anything that reads every node's text -
+	// quadratic: 28 GB for a 1 MiB list.
 	plain := []string{"lorem ipsum dolor sit amet", "consectetur adipiscing elit, sed do", "caf\u00e9 na\u00efve \u20ac 12", "a.b c;d e-f"}[r.Intn(4)]
 	var open, line, closer string
 	switch shape {
@@ -26,9 +29,9 @@ func bigBlock(r *Rng, n int, shape string) []byte {
 	case "quote":
 		line = "> " + plain + "\n"
 	case "list":
-		line = "- " + inlineText(r) + "\n"
+		line = "- " + plain + "\n"
 	case "loose-list":
-		line = "1. " + inlineText(r) + "\n\n"
+		line = "1. " + plain + "\n\n"
 	case "indented":
 		line = "    " + inlineText(r) + "\n"
 	case "html":
